@@ -27,6 +27,10 @@ enum {
 #define VERIF_HOST_BIG 0
 #endif
 
+/* std::min<T>(a, b) / std::max<T>(a, b) */
+#define VERIF_MIN_T(T, a, b) ((T)(a) < (T)(b) ? (T)(a) : (T)(b))
+#define VERIF_MAX_T(T, a, b) ((T)(a) > (T)(b) ? (T)(a) : (T)(b))
+
 /* C spellings of std::make_unsigned_t<T> / make_signed_t<T> / is_unsigned_v<T> for the integer types (T may itself be a macro) */
 #define VERIF_CAT_(a, b) a##b
 #define VERIF_CAT(a, b) VERIF_CAT_(a, b)
